@@ -288,7 +288,11 @@ class PauliTerm:
 
         cast_other = cast(PauliTerm, other)
         return np.allclose(self.coefficient, cast_other.coefficient) and (
-            np.allclose(self.coefficient, 0) or self.operations == cast_other.operations
+            (
+                np.allclose(self.coefficient, 0)
+                and np.allclose(cast_other.coefficient, 0)
+            )
+            or self.operations == cast_other.operations
         )
 
     def __add__(self, other: Union[PauliRepresentation, complex]) -> "PauliSum":
